@@ -81,7 +81,7 @@ func NewWire(r *kernel.Run, srv *World, base *tls.Config, options []nodeenrollme
 			cfgs[0], cfgs[1] = cfgs[1], cfgs[0]
 		}
 	}
-	r.OnClose(func() { protocol.SimDial = nil; nodetls.SimOrderConfigs = nil })
+	r.OnEnd(func() { protocol.SimDial = nil; nodetls.SimOrderConfigs = nil })
 	r.Sched.Managed()
 	return w
 }
